@@ -234,6 +234,8 @@ class Realizer:
             L.append(f"class {o.name}" + (f"({', '.join(bases)})" if bases else "") + ":")
             empty = True
             for f, e in zip(o.fields, field_exprs):
+                if f.inherited:
+                    continue
                 empty = False
                 ann = f"InitVar[{e}]" if f.initvar else e
                 md = self.field_metadata(f)
